@@ -134,6 +134,9 @@ class SourceJoin(MVPN):
                 f'Invalid C-Multicast Route length ({sourceiplen * 8} bits). Expected 32 bits (IPv4) or 128 bits (IPv6).',
             )
         cursor += sourceiplen
+        if cursor >= len(packed):
+            # the source length (taken from the wire) does not fit the route: packed[cursor] raised IndexError
+            raise Notify(3, 5, 'C-Multicast Route too short for its Multicast Source IP length.')
 
         # Validate group IP length
         groupiplen = int(packed[cursor] / 8)
